@@ -318,8 +318,8 @@ def utf8_encode(items, errors="strict"):
         if e.decide(c < 0x80):
             out.append(c)
         elif e.decide(c < 0x800):
-            out.append(0xC0 + c / 64)
-            out.append(0x80 + c % 64)
+            out.append(_nb(0xC0 + c / 64, 0xC2, 0xDF))
+            out.append(_nb(0x80 + c % 64, 0x80, 0xBF))
         elif e.decide(c < 0x10000):
             if e.decide(z3.And(c >= 0xD800, c <= 0xDFFF)):
                 if errors == "surrogateescape" and e.decide(z3.And(c >= 0xDC80, c <= 0xDCFF)):
@@ -328,15 +328,26 @@ def utf8_encode(items, errors="strict"):
                 if errors not in ("strict", "surrogateescape"):
                     raise Unsupported(f"encode errors={errors}")
                 raise UnicodeEncodeError("utf-8", V.PLACEHOLDER, pos, pos + 1, "surrogates not allowed")
-            out.append(0xE0 + c / 4096)
-            out.append(0x80 + (c / 64) % 64)
-            out.append(0x80 + c % 64)
+            out.append(_nb(0xE0 + c / 4096, 0xE0, 0xEF))
+            out.append(_nb(0x80 + (c / 64) % 64, 0x80, 0xBF))
+            out.append(_nb(0x80 + c % 64, 0x80, 0xBF))
         else:
-            out.append(0xF0 + c / 262144)
-            out.append(0x80 + (c / 4096) % 64)
-            out.append(0x80 + (c / 64) % 64)
-            out.append(0x80 + c % 64)
-    return [x if _real_isinstance(x, _real_int) else z3.simplify(x) for x in out]
+            out.append(_nb(0xF0 + c / 262144, 0xF0, 0xF4))
+            out.append(_nb(0x80 + (c / 4096) % 64, 0x80, 0xBF))
+            out.append(_nb(0x80 + (c / 64) % 64, 0x80, 0xBF))
+            out.append(_nb(0x80 + c % 64, 0x80, 0xBF))
+    res = []
+    for x in out:
+        if _real_isinstance(x, _real_int):
+            res.append(x)
+            continue
+        x = z3.simplify(x)
+        res.append(x)
+    return res
+
+
+def _nb(t, lo, hi):
+    return V.note_bounds(z3.simplify(t), lo, hi)
 
 
 def _rng(b, lo, hi):
@@ -388,7 +399,7 @@ def utf8_decode(items, errors="strict"):
                 lo2, hi2 = 0x80, 0xBF
         else:
             bad(i, i + 1, "invalid start byte")
-            out.append(0xDC00 + b)
+            out.append(_nb(0xDC00 + b, 0xDC80, 0xDCFF))
             i += 1
             continue
         ok = True
@@ -407,19 +418,21 @@ def utf8_decode(items, errors="strict"):
             k += 1
         if not ok:
             bad(i, i + k, reason)
-            out.append(0xDC00 + b)
+            out.append(_nb(0xDC00 + b, 0xDC80, 0xDCFF))
             i += 1
             continue
         if need == 1:
-            cp = (b - 0xC0) * 64 + (items[i + 1] - 0x80)
+            cp = _nb((b - 0xC0) * 64 + (items[i + 1] - 0x80), 0x80, 0x7FF)
         elif need == 2:
-            cp = (b - 0xE0) * 4096 + (items[i + 1] - 0x80) * 64 + (items[i + 2] - 0x80)
+            cp = _nb((b - 0xE0) * 4096 + (items[i + 1] - 0x80) * 64 + (items[i + 2] - 0x80), 0x800, 0xFFFF)
         else:
-            cp = (
+            cp = _nb(
                 (b - 0xF0) * 262144
                 + (items[i + 1] - 0x80) * 4096
                 + (items[i + 2] - 0x80) * 64
-                + (items[i + 3] - 0x80)
+                + (items[i + 3] - 0x80),
+                0x10000,
+                0x10FFFF,
             )
         out.append(cp)
         i += need + 1
